@@ -1,5 +1,5 @@
 /-
-  Proofs.C12Exact — on D the find-path projection is exactly the rule (`incl_exact`,
+  Proofs.C12Exact — the find-path projection (for a specification free of collisions and `$` components) is exactly the rule (`incl_exact`,
   `excl_exact`).
 -/
 import Proofs.C12Combine
@@ -39,22 +39,12 @@ theorem guard_ok {cs : PSpec} {ps : List Path} (hr : Rep cs ps) (hd : NoDollar p
     exact hd _ (mem_tailsOf.mp ht) (by simp)
   simp [positionalGuard, thas, this]
 
-theorem append_nil_left {α} {a b : List α} (h : a ++ b = []) : a = [] := (List.append_eq_nil_iff.mp h).1
-theorem append_nil_right {α} {a b : List α} (h : a ++ b = []) : b = [] := (List.append_eq_nil_iff.mp h).2
-
-theorem desc_cond {ts : List Path} {x : List String} (h1 : [] ∉ ts) (h2 : ts ≠ [])
-    (h : (if (ts.isEmpty || ts.contains []) = true then [] else x) = []) : x = [] := by
-  have h' : ¬ ts = [] → ¬ [] ∈ ts → x = [] := by simpa using h
-  exact h' h2 h1
-
 mutual
   theorem fpFields_incl : ∀ (fs : Fields) (cs : PSpec) (ps : List Path), Rep cs ps → NoDollar ps →
-      descFields fs ps true = [] → fpFields fs cs true = .ok (inclFields fs ps)
-    | [], _, _, _, _, _ => by simp [fpFields, inclFields]
-    | (k, .arr xs) :: rest, cs, ps, hr, hd, hD => by
-      simp only [descFields] at hD
-      have ih := fpFields_incl rest cs ps hr hd (append_nil_right hD)
-      have hD1 := append_nil_left hD
+      fpFields fs cs true = .ok (inclFields fs ps)
+    | [], _, _, _, _ => by simp [fpFields, inclFields]
+    | (k, .arr xs) :: rest, cs, ps, hr, hd => by
+      have ih := fpFields_incl rest cs ps hr hd
       cases ht : tget k cs with
       | none =>
         have hts := (hr.none_iff k).mp ht
@@ -67,14 +57,11 @@ mutual
           simp [fpFields, inclFields, ht, hts, hne, ih, bind, Except.bind, pure, Except.pure]
         | node sub =>
           obtain ⟨h1, h2, h3⟩ := hr.node ht
-          simp only [descVal] at hD1
-          have ihl := fpList_incl xs sub _ h3 (noDollar_tailsOf k hd) (desc_cond h1 h2 hD1)
-          simp [fpFields, inclFields, inclVal, ht, h1, h2, ih, ihl, bind, Except.bind, pure,
-            Except.pure]
-    | (k, .doc fs) :: rest, cs, ps, hr, hd, hD => by
-      simp only [descFields] at hD
-      have ih := fpFields_incl rest cs ps hr hd (append_nil_right hD)
-      have hD1 := append_nil_left hD
+          have ihl := fpList_incl xs sub _ h3 (noDollar_tailsOf k hd)
+          simp [fpFields, inclFields, inclVal, ht, h1, h2, ih, ihl,
+            guard_ok h3 (noDollar_tailsOf k hd), bind, Except.bind, pure, Except.pure]
+    | (k, .doc fs) :: rest, cs, ps, hr, hd => by
+      have ih := fpFields_incl rest cs ps hr hd
       cases ht : tget k cs with
       | none =>
         have hts := (hr.none_iff k).mp ht
@@ -87,13 +74,11 @@ mutual
           simp [fpFields, inclFields, ht, hts, hne, ih, bind, Except.bind, pure, Except.pure]
         | node sub =>
           obtain ⟨h1, h2, h3⟩ := hr.node ht
-          simp only [descVal] at hD1
-          have ihf := fpFields_incl fs sub _ h3 (noDollar_tailsOf k hd) (desc_cond h1 h2 hD1)
+          have ihf := fpFields_incl fs sub _ h3 (noDollar_tailsOf k hd)
           simp [fpFields, inclFields, inclVal, ht, h1, h2, ih, ihf,
             guard_ok h3 (noDollar_tailsOf k hd), bind, Except.bind, pure, Except.pure]
-    | (k, .null) :: rest, cs, ps, hr, hd, hD => by
-      simp only [descFields] at hD
-      have ih := fpFields_incl rest cs ps hr hd (append_nil_right hD)
+    | (k, .null) :: rest, cs, ps, hr, hd => by
+      have ih := fpFields_incl rest cs ps hr hd
       cases ht : tget k cs with
       | none =>
         have hts := (hr.none_iff k).mp ht
@@ -106,10 +91,9 @@ mutual
           simp [fpFields, inclFields, ht, hts, hne, ih, bind, Except.bind, pure, Except.pure]
         | node sub =>
           obtain ⟨h1, h2, h3⟩ := hr.node ht
-          simp [fpFields, inclFields, inclVal, ht, h1, h2, ih]
-    | (k, .bool _) :: rest, cs, ps, hr, hd, hD => by
-      simp only [descFields] at hD
-      have ih := fpFields_incl rest cs ps hr hd (append_nil_right hD)
+          simp [fpFields, inclFields, inclVal, ht, h1, h2, ih, bind, Except.bind, pure, Except.pure]
+    | (k, .bool _) :: rest, cs, ps, hr, hd => by
+      have ih := fpFields_incl rest cs ps hr hd
       cases ht : tget k cs with
       | none =>
         have hts := (hr.none_iff k).mp ht
@@ -122,10 +106,9 @@ mutual
           simp [fpFields, inclFields, ht, hts, hne, ih, bind, Except.bind, pure, Except.pure]
         | node sub =>
           obtain ⟨h1, h2, h3⟩ := hr.node ht
-          simp [fpFields, inclFields, inclVal, ht, h1, h2, ih]
-    | (k, .int _) :: rest, cs, ps, hr, hd, hD => by
-      simp only [descFields] at hD
-      have ih := fpFields_incl rest cs ps hr hd (append_nil_right hD)
+          simp [fpFields, inclFields, inclVal, ht, h1, h2, ih, bind, Except.bind, pure, Except.pure]
+    | (k, .int _) :: rest, cs, ps, hr, hd => by
+      have ih := fpFields_incl rest cs ps hr hd
       cases ht : tget k cs with
       | none =>
         have hts := (hr.none_iff k).mp ht
@@ -138,10 +121,9 @@ mutual
           simp [fpFields, inclFields, ht, hts, hne, ih, bind, Except.bind, pure, Except.pure]
         | node sub =>
           obtain ⟨h1, h2, h3⟩ := hr.node ht
-          simp [fpFields, inclFields, inclVal, ht, h1, h2, ih]
-    | (k, .dbl _ _) :: rest, cs, ps, hr, hd, hD => by
-      simp only [descFields] at hD
-      have ih := fpFields_incl rest cs ps hr hd (append_nil_right hD)
+          simp [fpFields, inclFields, inclVal, ht, h1, h2, ih, bind, Except.bind, pure, Except.pure]
+    | (k, .dbl _ _) :: rest, cs, ps, hr, hd => by
+      have ih := fpFields_incl rest cs ps hr hd
       cases ht : tget k cs with
       | none =>
         have hts := (hr.none_iff k).mp ht
@@ -154,10 +136,9 @@ mutual
           simp [fpFields, inclFields, ht, hts, hne, ih, bind, Except.bind, pure, Except.pure]
         | node sub =>
           obtain ⟨h1, h2, h3⟩ := hr.node ht
-          simp [fpFields, inclFields, inclVal, ht, h1, h2, ih]
-    | (k, .str _) :: rest, cs, ps, hr, hd, hD => by
-      simp only [descFields] at hD
-      have ih := fpFields_incl rest cs ps hr hd (append_nil_right hD)
+          simp [fpFields, inclFields, inclVal, ht, h1, h2, ih, bind, Except.bind, pure, Except.pure]
+    | (k, .str _) :: rest, cs, ps, hr, hd => by
+      have ih := fpFields_incl rest cs ps hr hd
       cases ht : tget k cs with
       | none =>
         have hts := (hr.none_iff k).mp ht
@@ -170,10 +151,9 @@ mutual
           simp [fpFields, inclFields, ht, hts, hne, ih, bind, Except.bind, pure, Except.pure]
         | node sub =>
           obtain ⟨h1, h2, h3⟩ := hr.node ht
-          simp [fpFields, inclFields, inclVal, ht, h1, h2, ih]
-    | (k, .date _ _) :: rest, cs, ps, hr, hd, hD => by
-      simp only [descFields] at hD
-      have ih := fpFields_incl rest cs ps hr hd (append_nil_right hD)
+          simp [fpFields, inclFields, inclVal, ht, h1, h2, ih, bind, Except.bind, pure, Except.pure]
+    | (k, .date _ _) :: rest, cs, ps, hr, hd => by
+      have ih := fpFields_incl rest cs ps hr hd
       cases ht : tget k cs with
       | none =>
         have hts := (hr.none_iff k).mp ht
@@ -186,10 +166,9 @@ mutual
           simp [fpFields, inclFields, ht, hts, hne, ih, bind, Except.bind, pure, Except.pure]
         | node sub =>
           obtain ⟨h1, h2, h3⟩ := hr.node ht
-          simp [fpFields, inclFields, inclVal, ht, h1, h2, ih]
-    | (k, .oid _) :: rest, cs, ps, hr, hd, hD => by
-      simp only [descFields] at hD
-      have ih := fpFields_incl rest cs ps hr hd (append_nil_right hD)
+          simp [fpFields, inclFields, inclVal, ht, h1, h2, ih, bind, Except.bind, pure, Except.pure]
+    | (k, .oid _) :: rest, cs, ps, hr, hd => by
+      have ih := fpFields_incl rest cs ps hr hd
       cases ht : tget k cs with
       | none =>
         have hts := (hr.none_iff k).mp ht
@@ -202,34 +181,47 @@ mutual
           simp [fpFields, inclFields, ht, hts, hne, ih, bind, Except.bind, pure, Except.pure]
         | node sub =>
           obtain ⟨h1, h2, h3⟩ := hr.node ht
-          simp [fpFields, inclFields, inclVal, ht, h1, h2, ih]
+          simp [fpFields, inclFields, inclVal, ht, h1, h2, ih, bind, Except.bind, pure, Except.pure]
   theorem fpList_incl : ∀ (xs : List Val) (cs : PSpec) (ps : List Path), Rep cs ps → NoDollar ps →
-      descList xs ps true = [] → fpList xs cs true = .ok (inclList xs ps)
-    | [], _, _, _, _, _ => by simp [fpList, inclList]
-    | .doc fs :: xs, cs, ps, hr, hd, hD => by
-      simp only [descList] at hD
-      have ih := fpList_incl xs cs ps hr hd (append_nil_right hD)
-      have ihf := fpFields_incl fs cs ps hr hd (append_nil_left hD)
-      simp [fpList, fpVal, inclList, inclVal, ih, ihf, guard_ok hr hd, bind, Except.bind, pure,
-        Except.pure]
-    | .arr _ :: _, _, _, _, _, hD => by simp [descList] at hD
-    | .null :: _, _, _, _, _, hD => by simp [descList] at hD
-    | .bool _ :: _, _, _, _, _, hD => by simp [descList] at hD
-    | .int _ :: _, _, _, _, _, hD => by simp [descList] at hD
-    | .dbl _ _ :: _, _, _, _, _, hD => by simp [descList] at hD
-    | .str _ :: _, _, _, _, _, hD => by simp [descList] at hD
-    | .date _ _ :: _, _, _, _, _, hD => by simp [descList] at hD
-    | .oid _ :: _, _, _, _, _, hD => by simp [descList] at hD
+      fpList xs cs true = .ok (inclList xs ps)
+    | [], _, _, _, _ => by simp [fpList, inclList]
+    | .doc fs :: xs, cs, ps, hr, hd => by
+      have ih := fpList_incl xs cs ps hr hd
+      have ihf := fpFields_incl fs cs ps hr hd
+      simp [fpList, fpVal, inclList, inclVal, ih, ihf, bind, Except.bind, pure, Except.pure]
+    | .arr zs :: xs, cs, ps, hr, hd => by
+      have ih := fpList_incl xs cs ps hr hd
+      have ihl := fpList_incl zs cs ps hr hd
+      simp [fpList, fpVal, inclList, inclVal, ih, ihl, bind, Except.bind, pure, Except.pure]
+    | .null :: xs, cs, ps, hr, hd => by
+      have ih := fpList_incl xs cs ps hr hd
+      simp [fpList, fpVal, inclList, inclVal, ih, bind, Except.bind, pure, Except.pure]
+    | .bool _ :: xs, cs, ps, hr, hd => by
+      have ih := fpList_incl xs cs ps hr hd
+      simp [fpList, fpVal, inclList, inclVal, ih, bind, Except.bind, pure, Except.pure]
+    | .int _ :: xs, cs, ps, hr, hd => by
+      have ih := fpList_incl xs cs ps hr hd
+      simp [fpList, fpVal, inclList, inclVal, ih, bind, Except.bind, pure, Except.pure]
+    | .dbl _ _ :: xs, cs, ps, hr, hd => by
+      have ih := fpList_incl xs cs ps hr hd
+      simp [fpList, fpVal, inclList, inclVal, ih, bind, Except.bind, pure, Except.pure]
+    | .str _ :: xs, cs, ps, hr, hd => by
+      have ih := fpList_incl xs cs ps hr hd
+      simp [fpList, fpVal, inclList, inclVal, ih, bind, Except.bind, pure, Except.pure]
+    | .date _ _ :: xs, cs, ps, hr, hd => by
+      have ih := fpList_incl xs cs ps hr hd
+      simp [fpList, fpVal, inclList, inclVal, ih, bind, Except.bind, pure, Except.pure]
+    | .oid _ :: xs, cs, ps, hr, hd => by
+      have ih := fpList_incl xs cs ps hr hd
+      simp [fpList, fpVal, inclList, inclVal, ih, bind, Except.bind, pure, Except.pure]
 end
 
 mutual
   theorem fpFields_excl : ∀ (fs : Fields) (cs : PSpec) (ps : List Path), Rep cs ps → NoDollar ps →
-      descFields fs ps false = [] → fpFields fs cs false = .ok (exclFields fs ps)
-    | [], _, _, _, _, _ => by simp [fpFields, exclFields]
-    | (k, .arr xs) :: rest, cs, ps, hr, hd, hD => by
-      simp only [descFields] at hD
-      have ih := fpFields_excl rest cs ps hr hd (append_nil_right hD)
-      have hD1 := append_nil_left hD
+      fpFields fs cs false = .ok (exclFields fs ps)
+    | [], _, _, _, _ => by simp [fpFields, exclFields]
+    | (k, .arr xs) :: rest, cs, ps, hr, hd => by
+      have ih := fpFields_excl rest cs ps hr hd
       cases ht : tget k cs with
       | none =>
         have hts := (hr.none_iff k).mp ht
@@ -242,14 +234,11 @@ mutual
           simp [fpFields, exclFields, ht, hts, hne, ih, bind, Except.bind, pure, Except.pure]
         | node sub =>
           obtain ⟨h1, h2, h3⟩ := hr.node ht
-          simp only [descVal] at hD1
-          have ihl := fpList_excl xs sub _ h3 (noDollar_tailsOf k hd) (desc_cond h1 h2 hD1)
-          simp [fpFields, exclFields, exclVal, ht, h1, h2, ih, ihl, bind, Except.bind, pure,
-            Except.pure]
-    | (k, .doc fs) :: rest, cs, ps, hr, hd, hD => by
-      simp only [descFields] at hD
-      have ih := fpFields_excl rest cs ps hr hd (append_nil_right hD)
-      have hD1 := append_nil_left hD
+          have ihl := fpList_excl xs sub _ h3 (noDollar_tailsOf k hd)
+          simp [fpFields, exclFields, exclVal, ht, h1, h2, ih, ihl,
+            guard_ok h3 (noDollar_tailsOf k hd), bind, Except.bind, pure, Except.pure]
+    | (k, .doc fs) :: rest, cs, ps, hr, hd => by
+      have ih := fpFields_excl rest cs ps hr hd
       cases ht : tget k cs with
       | none =>
         have hts := (hr.none_iff k).mp ht
@@ -262,13 +251,11 @@ mutual
           simp [fpFields, exclFields, ht, hts, hne, ih, bind, Except.bind, pure, Except.pure]
         | node sub =>
           obtain ⟨h1, h2, h3⟩ := hr.node ht
-          simp only [descVal] at hD1
-          have ihf := fpFields_excl fs sub _ h3 (noDollar_tailsOf k hd) (desc_cond h1 h2 hD1)
+          have ihf := fpFields_excl fs sub _ h3 (noDollar_tailsOf k hd)
           simp [fpFields, exclFields, exclVal, ht, h1, h2, ih, ihf,
             guard_ok h3 (noDollar_tailsOf k hd), bind, Except.bind, pure, Except.pure]
-    | (k, .null) :: rest, cs, ps, hr, hd, hD => by
-      simp only [descFields] at hD
-      have ih := fpFields_excl rest cs ps hr hd (append_nil_right hD)
+    | (k, .null) :: rest, cs, ps, hr, hd => by
+      have ih := fpFields_excl rest cs ps hr hd
       cases ht : tget k cs with
       | none =>
         have hts := (hr.none_iff k).mp ht
@@ -281,11 +268,9 @@ mutual
           simp [fpFields, exclFields, ht, hts, hne, ih, bind, Except.bind, pure, Except.pure]
         | node sub =>
           obtain ⟨h1, h2, h3⟩ := hr.node ht
-          have := desc_cond h1 h2 (append_nil_left hD)
-          simp [descVal] at this
-    | (k, .bool _) :: rest, cs, ps, hr, hd, hD => by
-      simp only [descFields] at hD
-      have ih := fpFields_excl rest cs ps hr hd (append_nil_right hD)
+          simp [fpFields, exclFields, exclVal, ht, h1, h2, ih, bind, Except.bind, pure, Except.pure]
+    | (k, .bool _) :: rest, cs, ps, hr, hd => by
+      have ih := fpFields_excl rest cs ps hr hd
       cases ht : tget k cs with
       | none =>
         have hts := (hr.none_iff k).mp ht
@@ -298,11 +283,9 @@ mutual
           simp [fpFields, exclFields, ht, hts, hne, ih, bind, Except.bind, pure, Except.pure]
         | node sub =>
           obtain ⟨h1, h2, h3⟩ := hr.node ht
-          have := desc_cond h1 h2 (append_nil_left hD)
-          simp [descVal] at this
-    | (k, .int _) :: rest, cs, ps, hr, hd, hD => by
-      simp only [descFields] at hD
-      have ih := fpFields_excl rest cs ps hr hd (append_nil_right hD)
+          simp [fpFields, exclFields, exclVal, ht, h1, h2, ih, bind, Except.bind, pure, Except.pure]
+    | (k, .int _) :: rest, cs, ps, hr, hd => by
+      have ih := fpFields_excl rest cs ps hr hd
       cases ht : tget k cs with
       | none =>
         have hts := (hr.none_iff k).mp ht
@@ -315,11 +298,9 @@ mutual
           simp [fpFields, exclFields, ht, hts, hne, ih, bind, Except.bind, pure, Except.pure]
         | node sub =>
           obtain ⟨h1, h2, h3⟩ := hr.node ht
-          have := desc_cond h1 h2 (append_nil_left hD)
-          simp [descVal] at this
-    | (k, .dbl _ _) :: rest, cs, ps, hr, hd, hD => by
-      simp only [descFields] at hD
-      have ih := fpFields_excl rest cs ps hr hd (append_nil_right hD)
+          simp [fpFields, exclFields, exclVal, ht, h1, h2, ih, bind, Except.bind, pure, Except.pure]
+    | (k, .dbl _ _) :: rest, cs, ps, hr, hd => by
+      have ih := fpFields_excl rest cs ps hr hd
       cases ht : tget k cs with
       | none =>
         have hts := (hr.none_iff k).mp ht
@@ -332,11 +313,9 @@ mutual
           simp [fpFields, exclFields, ht, hts, hne, ih, bind, Except.bind, pure, Except.pure]
         | node sub =>
           obtain ⟨h1, h2, h3⟩ := hr.node ht
-          have := desc_cond h1 h2 (append_nil_left hD)
-          simp [descVal] at this
-    | (k, .str _) :: rest, cs, ps, hr, hd, hD => by
-      simp only [descFields] at hD
-      have ih := fpFields_excl rest cs ps hr hd (append_nil_right hD)
+          simp [fpFields, exclFields, exclVal, ht, h1, h2, ih, bind, Except.bind, pure, Except.pure]
+    | (k, .str _) :: rest, cs, ps, hr, hd => by
+      have ih := fpFields_excl rest cs ps hr hd
       cases ht : tget k cs with
       | none =>
         have hts := (hr.none_iff k).mp ht
@@ -349,11 +328,9 @@ mutual
           simp [fpFields, exclFields, ht, hts, hne, ih, bind, Except.bind, pure, Except.pure]
         | node sub =>
           obtain ⟨h1, h2, h3⟩ := hr.node ht
-          have := desc_cond h1 h2 (append_nil_left hD)
-          simp [descVal] at this
-    | (k, .date _ _) :: rest, cs, ps, hr, hd, hD => by
-      simp only [descFields] at hD
-      have ih := fpFields_excl rest cs ps hr hd (append_nil_right hD)
+          simp [fpFields, exclFields, exclVal, ht, h1, h2, ih, bind, Except.bind, pure, Except.pure]
+    | (k, .date _ _) :: rest, cs, ps, hr, hd => by
+      have ih := fpFields_excl rest cs ps hr hd
       cases ht : tget k cs with
       | none =>
         have hts := (hr.none_iff k).mp ht
@@ -366,11 +343,9 @@ mutual
           simp [fpFields, exclFields, ht, hts, hne, ih, bind, Except.bind, pure, Except.pure]
         | node sub =>
           obtain ⟨h1, h2, h3⟩ := hr.node ht
-          have := desc_cond h1 h2 (append_nil_left hD)
-          simp [descVal] at this
-    | (k, .oid _) :: rest, cs, ps, hr, hd, hD => by
-      simp only [descFields] at hD
-      have ih := fpFields_excl rest cs ps hr hd (append_nil_right hD)
+          simp [fpFields, exclFields, exclVal, ht, h1, h2, ih, bind, Except.bind, pure, Except.pure]
+    | (k, .oid _) :: rest, cs, ps, hr, hd => by
+      have ih := fpFields_excl rest cs ps hr hd
       cases ht : tget k cs with
       | none =>
         have hts := (hr.none_iff k).mp ht
@@ -383,25 +358,39 @@ mutual
           simp [fpFields, exclFields, ht, hts, hne, ih, bind, Except.bind, pure, Except.pure]
         | node sub =>
           obtain ⟨h1, h2, h3⟩ := hr.node ht
-          have := desc_cond h1 h2 (append_nil_left hD)
-          simp [descVal] at this
+          simp [fpFields, exclFields, exclVal, ht, h1, h2, ih, bind, Except.bind, pure, Except.pure]
   theorem fpList_excl : ∀ (xs : List Val) (cs : PSpec) (ps : List Path), Rep cs ps → NoDollar ps →
-      descList xs ps false = [] → fpList xs cs false = .ok (exclList xs ps)
-    | [], _, _, _, _, _ => by simp [fpList, exclList]
-    | .doc fs :: xs, cs, ps, hr, hd, hD => by
-      simp only [descList] at hD
-      have ih := fpList_excl xs cs ps hr hd (append_nil_right hD)
-      have ihf := fpFields_excl fs cs ps hr hd (append_nil_left hD)
-      simp [fpList, fpVal, exclList, exclVal, ih, ihf, guard_ok hr hd, bind, Except.bind, pure,
-        Except.pure]
-    | .arr _ :: _, _, _, _, _, hD => by simp [descList] at hD
-    | .null :: _, _, _, _, _, hD => by simp [descList] at hD
-    | .bool _ :: _, _, _, _, _, hD => by simp [descList] at hD
-    | .int _ :: _, _, _, _, _, hD => by simp [descList] at hD
-    | .dbl _ _ :: _, _, _, _, _, hD => by simp [descList] at hD
-    | .str _ :: _, _, _, _, _, hD => by simp [descList] at hD
-    | .date _ _ :: _, _, _, _, _, hD => by simp [descList] at hD
-    | .oid _ :: _, _, _, _, _, hD => by simp [descList] at hD
+      fpList xs cs false = .ok (exclList xs ps)
+    | [], _, _, _, _ => by simp [fpList, exclList]
+    | .doc fs :: xs, cs, ps, hr, hd => by
+      have ih := fpList_excl xs cs ps hr hd
+      have ihf := fpFields_excl fs cs ps hr hd
+      simp [fpList, fpVal, exclList, exclVal, ih, ihf, bind, Except.bind, pure, Except.pure]
+    | .arr zs :: xs, cs, ps, hr, hd => by
+      have ih := fpList_excl xs cs ps hr hd
+      have ihl := fpList_excl zs cs ps hr hd
+      simp [fpList, fpVal, exclList, exclVal, ih, ihl, bind, Except.bind, pure, Except.pure]
+    | .null :: xs, cs, ps, hr, hd => by
+      have ih := fpList_excl xs cs ps hr hd
+      simp [fpList, fpVal, exclList, exclVal, ih, bind, Except.bind, pure, Except.pure]
+    | .bool _ :: xs, cs, ps, hr, hd => by
+      have ih := fpList_excl xs cs ps hr hd
+      simp [fpList, fpVal, exclList, exclVal, ih, bind, Except.bind, pure, Except.pure]
+    | .int _ :: xs, cs, ps, hr, hd => by
+      have ih := fpList_excl xs cs ps hr hd
+      simp [fpList, fpVal, exclList, exclVal, ih, bind, Except.bind, pure, Except.pure]
+    | .dbl _ _ :: xs, cs, ps, hr, hd => by
+      have ih := fpList_excl xs cs ps hr hd
+      simp [fpList, fpVal, exclList, exclVal, ih, bind, Except.bind, pure, Except.pure]
+    | .str _ :: xs, cs, ps, hr, hd => by
+      have ih := fpList_excl xs cs ps hr hd
+      simp [fpList, fpVal, exclList, exclVal, ih, bind, Except.bind, pure, Except.pure]
+    | .date _ _ :: xs, cs, ps, hr, hd => by
+      have ih := fpList_excl xs cs ps hr hd
+      simp [fpList, fpVal, exclList, exclVal, ih, bind, Except.bind, pure, Except.pure]
+    | .oid _ :: xs, cs, ps, hr, hd => by
+      have ih := fpList_excl xs cs ps hr hd
+      simp [fpList, fpVal, exclList, exclVal, ih, bind, Except.bind, pure, Except.pure]
 end
 
 
